@@ -293,7 +293,7 @@ class G(object):
         keys = []
         for _ in range(rng.choice([1, 1, 2])):
             keys.append(self.e_str(1) if rng.random() < 0.6 else self.e_int(1))
-        return {'keys': keys, 'desc': rng.random() < 0.45, 'asc_kw': rng.random() < 0.3}
+        return {'keys': keys, 'desc': rng.random() < 0.45, 'asc_kw': rng.random() < 0.3, 'dir_kw_case': rng.choice(['upper', 'upper', 'lower', 'title', 'mixed', 'mixed2'])}
 
     def gen_select(self, features):
         """features: set of 'where' 'join' 'order' 'distinct' 'count' 'top' 'unnest' 'except' 'star'"""
